@@ -76,7 +76,7 @@ def draw(rng, nmax):
     else:
         vals = [rng.randint(1, 5) for _ in range(n)]
         vals[rng.randrange(n)] = rng.randint(20, 200)        # one huge item: the cardinality bound binds
-    return {"kind": "partition", "alg": "cbldm", "k": 2, "values": vals, "cls": cls, "cbldm_d": rng.choice([None, 1, 1, 2, 3, n]),
+    return {"kind": "partition", "alg": "cbldm", "k": 2, "values": vals, "cls": cls, "cbldm_d": rng.choice([None, 1, 1, 2, 3, n, max(1, n - 1), n + 1, 100]),
             "pres": rng.choice(["list", "list", "array", "dict_str", "names_int"]), "pres_seed": rng.randrange(1 << 30)}
 
 
